@@ -59,6 +59,20 @@ Section CoreRun.
     - intros s l. destruct (core_m_flags cs (Some E) s l) as (_ & _ & _ & H). exact H.
   Qed.
 
+  (** ... and the lines returned are the scanned lines voted for (no-matches mode: the others), in file order *)
+  Theorem core_run_returns sh (c : cfg) E cs (recs : list (line ustring)) x0 :
+    wf sh -> parse false (ast_of sh) = Some (scanner c) -> q_scan c = false -> end_line c = Some E ->
+    end_of ustring recs = Some E -> will_run c = true ->
+    let r := run_from ustring mx (core_m q blanks AND cs (Some E)) c (rs0 mx x0) None recs in
+    let F := fold_left (ret_step ustring mx (core_m q blanks AND cs (Some E)) c) (filter (want ustring sh) (number 0 recs)) (rs0 mx x0, []) in
+    core mx (st ustring mx r) = core mx (fst F) /\ returned ustring mx r = snd F.
+  Proof.
+    intros Hwf Hp Hq He Hend Hw.
+    apply (run_returns_fold ustring mx (core_m q blanks AND cs (Some E)) sh c E Hwf Hp Hq He (core_m_quiet cs (Some E))); try assumption.
+    - intros s Hs. rewrite He in Hs. apply core_m_frozen_blank. exact Hs.
+    - intros s l. destruct (core_m_flags cs (Some E) s l) as (_ & _ & _ & H). exact H.
+  Qed.
+
   (** * frame: a component that does not name a dictionary leaves it alone *)
   Definition writes_comp (c : comp) : option Z := match comp_agg c with Some g => writes g | None => None end.
 
